@@ -81,7 +81,16 @@ type GlobalFact struct {
 	Where   string
 }
 
+// GhostField is ghost state attached to objects (a heap of its own, only visible to specifications).
+type GhostField struct {
+	Name string
+	Arg  TypeExpr
+	Ret  TypeExpr
+	PkgPath string
+}
+
 type ContractSet struct {
+	Ghosts  map[string]*GhostField
 	Funcs   map[string]*Contract
 	Specs   map[string]*SpecFunc // by name (package-local names are global here; duplicates rejected)
 	Globals []*GlobalFact
@@ -89,7 +98,7 @@ type ContractSet struct {
 }
 
 func NewContractSet() *ContractSet {
-	return &ContractSet{Funcs: map[string]*Contract{}, Specs: map[string]*SpecFunc{}}
+	return &ContractSet{Funcs: map[string]*Contract{}, Specs: map[string]*SpecFunc{}, Ghosts: map[string]*GhostField{}}
 }
 
 var reSpecLine = regexp.MustCompile(`^\s*//\s?@ ?(.*)$`)
@@ -257,6 +266,16 @@ func (cs *ContractSet) ParseContractFile(path, pkgPath string, trusted bool) err
 			lastSpec = sf
 			specBody = &strings.Builder{}
 			specBody.WriteString(bodyTxt)
+		case head == "ghostfield":
+			if err := flushAll(); err != nil {
+				return err
+			}
+			cur = nil
+			sf, _, err := parseSpecHeader(rest)
+			if err != nil || len(sf.Params) != 1 {
+				return fmt.Errorf("%s: ghostfield NAME(x T) R expected", where)
+			}
+			cs.Ghosts[sf.Name] = &GhostField{Name: sf.Name, Arg: sf.Params[0].T, Ret: sf.Ret, PkgPath: pkgPath}
 		case head == "global" || head == "axiom":
 			if err := flushAll(); err != nil {
 				return err
